@@ -9,6 +9,7 @@ import (
 	"go/constant"
 	"go/token"
 	"go/types"
+	"os"
 	"sort"
 	"strings"
 )
@@ -78,89 +79,123 @@ func c09Guard(p *Prog, r *Report) {
 			seqParam = info.Defs[nm]
 		}
 	}
-	// the iterator literal with a loop
-	var lit *ast.FuncLit
-	var loop *ast.ForStmt
-	ast.Inspect(fi.Decl.Body, func(x ast.Node) bool {
-		if l, ok := x.(*ast.FuncLit); ok {
-			ast.Inspect(l.Body, func(y ast.Node) bool {
-				if fs, ok := y.(*ast.ForStmt); ok && fs.Cond != nil {
-					lit, loop = l, fs
-				}
-				return true
-			})
-		}
-		return true
-	})
 	cons := kIterBefore + "#retention-guard"
-	if lit == nil || loop == nil || seqParam == nil {
-		r.Undecided("C09.a", cons, p.pos(fi.Decl), "iterator literal with a conditional for loop not found")
+	// the iterator: whatever function value IterateBeforeSeq returns that walks the list (a literal, or a method
+	// value of a small walker type); it is run abstractly on short version chains
+	var it *returnedFn
+	rfs := p.returnedFuncs(fi)
+	for i := range rfs {
+		if p.funcCallsDeep(rfs[i].FI, p.keysPred("(*internal/model/core.List).Front")) {
+			it = &rfs[i]
+		}
+	}
+	if it == nil || seqParam == nil {
+		r.Undecided("C09.a", cons, p.pos(fi.Decl), "the iterator function that walks the version list was not found")
 		return
 	}
+	yield := paramObjs(it.FI)[0]
+	const horizon = 5
+	type scenario struct {
+		chain []int64 // sequence numbers of the versions, oldest first; the list root (zero) follows
+		want  []int64 // versions yielded for removal
+	}
+	scenarios := []scenario{
+		{[]int64{2, 3, 7}, []int64{2}},
+		{[]int64{2, 3, 4}, []int64{2, 3}},
+		{[]int64{6}, nil},
+		{[]int64{2}, nil},
+		{[]int64{2, 7}, nil},
+		{[]int64{1, 2, 3, 4, 9}, []int64{1, 2, 3}},
+	}
 	type row struct {
-		Succ, Horizon int64
-		Yields        bool
+		Chain   []int64
+		Horizon int64
+		Yielded []int64
 	}
 	var rows []row
 	good := true
 	detail := ""
-	for _, succ := range []int64{0, 3, 5, 7} {
-		const horizon = 5
+	for _, sc := range scenarios {
+		// build the chain back to front
+		root := &Val{Fields: map[string]*Val{"v": {Fields: map[string]*Val{"Seq": intVal(0)}, Complete: true}, "next": {Nil: true}}}
+		var next *Val = &Val{Ptr: root}
+		for i := len(sc.chain) - 1; i >= 0; i-- {
+			node := &Val{Fields: map[string]*Val{"v": {Fields: map[string]*Val{"Seq": intVal(sc.chain[i])}, Complete: true, Tag: fmt.Sprintf("v%d", sc.chain[i])}, "next": next}}
+			next = &Val{Ptr: node}
+		}
+		front := next
+		root.Fields["next"] = front // the list is circular: the root's successor is the front
+		var yielded []int64
 		env := &Env{P: p, Pkg: fi.Pkg, Vars: map[types.Object]*Val{seqParam: intVal(horizon)}}
 		env.Hook = func(env *Env, e ast.Expr) (*Val, bool) {
-			if env.Pkg != fi.Pkg {
+			c, ok := e.(*ast.CallExpr)
+			if !ok {
 				return nil, false
 			}
-			// any expression <...>.next.v.Seq / <...>.next.V().Seq / next.v.Seq is the successor's sequence
-			s := types.ExprString(e)
-			if strings.HasSuffix(s, ".Seq") && strings.Contains(s, "next") {
-				return intVal(succ), true
+			if os.Getenv("FSDBCHECK_DEBUG") != "" {
+				fmt.Println("DEBUG c09 hook call", types.ExprString(c.Fun), env.P.calleeKeys(env.Pkg, c))
+			}
+			if env.P.callIs(env.Pkg, c, "(*internal/model/core.List).Front") {
+				return front, true
+			}
+			if yield != nil && objOf(env.Pkg.TypesInfo, c.Fun) == yield && len(c.Args) == 1 {
+				v := env.eval(c.Args[0])
+				for v != nil && v.Ptr != nil {
+					v = v.Ptr
+				}
+				if v != nil && v.Fields != nil && v.Fields["Seq"] != nil && v.Fields["Seq"].C != nil {
+					n, _ := constant.Int64Val(v.Fields["Seq"].C)
+					yielded = append(yielded, n)
+				} else {
+					yielded = append(yielded, -1)
+				}
+				return boolVal(true), true
 			}
 			return nil, false
 		}
-		v, err := env.Eval(loop.Cond)
-		if err != nil || v.C == nil {
-			r.Undecided("C09.a", cons, p.pos(loop.Cond), fmt.Sprintf("guard not evaluable: %v", err))
-			return
-		}
-		got := constant.BoolVal(v.C)
-		rows = append(rows, row{succ, horizon, got})
-		if succ == horizon {
-			continue
-		}
-		want := succ != 0 && succ < horizon
-		if got != want {
-			good = false
-			if got {
-				detail = fmt.Sprintf("successor Seq %d, horizon %d: the front version is yielded for removal although its successor %s: a reader at the horizon still needs it", succ, horizon, map[bool]string{true: "does not exist", false: "is newer than the horizon"}[succ == 0])
-			} else {
-				detail = fmt.Sprintf("successor Seq %d, horizon %d: a superseded version that nobody can read any more is kept forever", succ, horizon)
+		// a method value: its receiver is the expression the method was taken from, evaluated where it was written
+		if sel, isSel := ast.Unparen(it.Value).(*ast.SelectorExpr); isSel && it.FI.Lit == nil {
+			if recv := paramObjs(it.FI)[-1]; recv != nil {
+				// the enclosing method's own receiver is opaque
+				if outer := paramObjs(fi)[-1]; outer != nil {
+					env.Vars[outer] = &Val{Ptr: &Val{Fields: map[string]*Val{"l": {Tag: "list"}}}}
+				}
+				rv, err := env.Eval(sel.X)
+				if err != nil {
+					r.Undecided("C09.a", cons, p.pos(it.Pos), fmt.Sprintf("the walker value is not evaluable: %v", err))
+					return
+				}
+				env.Vars[recv] = rv
 			}
+		} else if outer := paramObjs(fi)[-1]; outer != nil {
+			env.Vars[outer] = &Val{Ptr: &Val{Fields: map[string]*Val{"l": {Tag: "list"}}}}
+		}
+		// helpers of the walker are spliced in, the list's own methods are not (Front is answered by the scenario)
+		f := p.FlatInlExcept(it.FI, p.methodsOf("internal/model/core", "List")...)
+		f.WalkMaxVisits = 12
+		f.WalkExprStmts = true
+		_, _, err := f.WalkPath(env)
+		if err != nil {
+			// a walk that has already offered a version it must keep is wrong however it goes on
+			prefix := len(yielded) <= len(sc.want)
+			for i := range yielded {
+				if prefix && yielded[i] != sc.want[i] {
+					prefix = false
+				}
+			}
+			if prefix {
+				r.Undecided("C09.a", cons, p.pos(it.Pos), fmt.Sprintf("the iterator is not evaluable on the chain %v: %v", sc.chain, err))
+				return
+			}
+		}
+		rows = append(rows, row{sc.chain, horizon, yielded})
+		if fmt.Sprint(yielded) != fmt.Sprint(sc.want) {
+			good = false
+			detail = fmt.Sprintf("versions %v (then the list root), horizon %d: the walk offers %v for removal, only %v have a successor that is not newer than the horizon", sc.chain, horizon, yielded, sc.want)
 		}
 	}
 	r.Tables["retention_guard"] = rows
-	r.Check(good, "C09.a", cons, p.pos(loop.Cond), "yield iff successor exists and is not newer than the horizon", detail)
-	// the yielded value is the current node's, then advance to next
-	yieldsCur := false
-	advances := false
-	ast.Inspect(loop.Body, func(x ast.Node) bool {
-		if c, ok := x.(*ast.CallExpr); ok && len(c.Args) == 1 {
-			if id, ok := c.Fun.(*ast.Ident); ok && strings.Contains(info.Types[id].Type.String(), "func(") {
-				s := types.ExprString(c.Args[0])
-				if !strings.Contains(s, "next") && (strings.HasSuffix(s, ".v") || strings.HasSuffix(s, ".V()")) {
-					yieldsCur = true
-				}
-			}
-		}
-		if as, ok := x.(*ast.AssignStmt); ok && len(as.Lhs) == 1 && len(as.Rhs) == 1 {
-			rs := types.ExprString(as.Rhs[0])
-			if rs == "next" || strings.HasSuffix(rs, ".next") {
-				advances = true
-			}
-		}
-		return true
-	})
-	r.Check(yieldsCur && advances, "C09.a", kIterBefore+"#yield-front-advance", p.pos(loop), "yields the front version and advances to its successor", "the iterator does not yield the current front version or does not advance to the successor")
+	r.Check(good, "C09.a", cons, p.pos(it.Pos), "a version is offered for removal iff its successor exists and is not newer than the horizon; the walk yields the front and advances", detail+": a version a reader at the horizon still needs is removed, or a superseded version nobody can read is kept")
 }
 
 func c09Horizon(p *Prog, r *Report) {
